@@ -329,6 +329,9 @@ def small_scope_trees():
         [("import", "ma", "w"), ("import", "mz", "ma", "+")],               # import ma as w, mz as ma
         [("import", "mz", "ma"), ("import", "ma", "w", "+")],               # import mz as ma, ma as w
         [("from", "ma", "x", "y"), ("from", "ma", "y", "z", "+"), ("from", "ma", "x", "x", "+"), ("assign", "w")],
+        # ONE statement binds a name twice: the last alias wins
+        [("from", "ma", "x", "w"), ("from", "ma", "y", "w", "+")],          # from ma import x as w, y as w
+        [("import", "ma", "w"), ("import", "mz", "w", "+")],                # import ma as w, mz as w
     ]
     mz = mod("mz", [("assign", "x"), ("assign", "y")])
     out = []
@@ -359,6 +362,7 @@ SMALL_CLIENTS = [
     [("from", "mb", "x", "q"), ("from", "mb", "x", "x"), ("def", "y")],
     [("from", "mb", "x", "x"), ("from", "mb", "w", "w", "+")],              # from mb import x, w
     [("from", "mb", "ma", "ma"), ("from", "mb", "w", "q", "+")],            # from mb import ma, w as q
+    [("from", "mb", "w", "w")],
 ]
 
 
@@ -375,7 +379,7 @@ def swap_pair(rnd, tree, cand):
             return []
         n1, n2 = rnd.sample(ns, 2)
         a = rnd.choice([p for p in POOL + ["q"] if p != n1])
-        pair = [("from", m2, n1, a), ("from", m2, n2, n1)]
+        pair = [("from", m2, n1, a), ("from", m2, n2, n1 if rnd.random() < 0.7 else a)]   # .. or `n1 as a, n2 as a`
     else:
         plain = [c for c in cand if "." not in c]
         if not plain or len(cand) < 2:
@@ -383,23 +387,25 @@ def swap_pair(rnd, tree, cand):
         m1 = rnd.choice(plain)
         m2 = rnd.choice([c for c in cand if c != m1])
         a = rnd.choice([p for p in POOL + ["q"] if p != m1])
-        pair = [("import", m1, a), ("import", m2, m1)]
+        pair = [("import", m1, a), ("import", m2, m1 if rnd.random() < 0.7 else a)]
     if rnd.random() < 0.5:
         pair.reverse()
     return [pair[0], pair[1] + ("+",)]
 
 
-def join_pass(rnd, body):
-    """join consecutive compatible import bindings into one statement (distinct bound names per statement:
-    for a statement that binds one name twice the code looks at its FIRST matching alias, Python at the last)"""
+def join_pass(rnd, body, allow_dup=False):
+    """join consecutive compatible import bindings into one statement.  In library modules a statement may bind
+    one name twice (the last alias wins, in Python and -- since the F18-12 repair -- in the redirect); client
+    statements keep distinct bound names (the statement rules re-sort aliases: T18.2 guard `coherent`)."""
     out, group = [], set()
     for b in body:
         prev = out[-1] if out else None
         ok = prev is not None and prev[0] == b[0] and (b[0] == "import" or (b[0] == "from" and prev[1] == b[1]))
+        fresh = allow_dup or bound_name(b) not in group
         if joined(b):
-            if not (ok and bound_name(b) not in group):
+            if not (ok and fresh):
                 b = b[:-1]
-        elif ok and bound_name(b) not in group and rnd.random() < 0.4:
+        elif ok and fresh and rnd.random() < 0.4:
             b = b + ("+",)
         if joined(b):
             group.add(bound_name(b))
@@ -438,7 +444,7 @@ def random_tree(rnd):
             body += swap_pair(rnd, tree, cand)
         if not body:
             body = [("assign", rnd.choice(POOL))]
-        body = join_pass(rnd, body)
+        body = join_pass(rnd, body, allow_dup=True)
         m = mod(name, body, init=(name == "pk"))
         tree["mods"].append(m)
         if rnd.random() < 0.3:
@@ -905,28 +911,12 @@ def sig_renamed_rebound_variable(c, n):
     return False
 
 
-def sig_statement_binds_name_twice(c, n):
-    """a module the client imports from contains ONE import statement that binds the changed name twice
-    (`from ma import x as v, y as v`): the redirect looks at the first such alias, Python keeps the last"""
-    used = {x.module for x in ast.walk(ast.parse(c["src"])) if isinstance(x, ast.ImportFrom)}
-    for m in c["tree"]["mods"]:
-        if m["name"] not in used:
-            continue
-        for node in ast.walk(ast.parse(render_module(m))):
-            if isinstance(node, (ast.Import, ast.ImportFrom)):
-                bound = [al.asname or al.name.split(".")[0] for al in node.names]
-                if bound.count(n) >= 2:
-                    return True
-    return False
-
-
 GUESSABLE: set = set()   # filled in check() from constants.ASSUMED_SOURCES / ASSUMED_PACKAGES / PACKAGE_ALIASES
 
 SIGS = {"same_name_rebound": sig_same_name_rebound, "dotted_import_head": sig_dotted_import_head,
         "nested_scope_binding": sig_nested_scope_binding, "relative_import_chain": sig_relative_import_chain,
         "local_import_made_global": sig_local_import_made_global, "guess_preempts_star": sig_guess_preempts_star,
-        "renamed_rebound_variable": sig_renamed_rebound_variable,
-        "statement_binds_name_twice": sig_statement_binds_name_twice}
+        "renamed_rebound_variable": sig_renamed_rebound_variable}
 IMPORT_SITES = set(SITE.values())
 
 
@@ -970,7 +960,7 @@ def special_tree():
         # the seeded regression C18-a: a name renamed away before another one is aliased to it, in ONE statement
         mod("msw", [("from", "ma", "x", "w"), ("from", "ma", "y", "x", "+"),
                     ("import", "ma", "first"), ("import", "mb", "ma", "+")]),
-        # one statement binds v twice: Python keeps the last alias
+        # one statement binds v twice: Python keeps the last alias (F18-12, repaired)
         {"name": "mtw", "init": False, "all": None, "body": [], "raw": "from ma import x as v, y as v\n"},
     ]}
 
@@ -1249,7 +1239,7 @@ def check(run: common.Run):  # noqa: C901
     run.coverage.update(
         evaluations=n_tree_cases * 2 + n_resolve + len(cs) + n_exec,
         distinct_nontrivial=len(distinct),
-        rule=("tree cases: ALL loading combinations of 4 variants of module ma x 16 variants of mb (several aliases in one statement, swapped names) x 16 client import "
+        rule=("tree cases: ALL loading combinations of 4 variants of module ma x 18 variants of mb (several aliases in one statement, swapped names, a name bound twice) x 17 client import "
               f"forms (exhaustive, {len(small)} trees), + {len(batch)} seeded random trees (modules ma mb pk/__init__ "
               "pk.s1 pk.s2 mc, re-export chains, aliases, star imports, __all__ as list/tuple) x 8 random clients; for "
               "each: resolve vs CPython namespaces, fix_starred_imports and fix_reimported_names vs model. statement "
